@@ -566,6 +566,54 @@ func extractC13() *lean {
 	l.def("latestQuery", "List String", leanStrList(latestQ), latestQ)
 	l.def("createOrUpdateQuery", "List String", leanStrList(couQ), couQ)
 
+	// ---- CreateOrUpdate: every way out, and the insert
+	var couReturns, couInserts []string
+	if fd := c13Method(dd, "SqlDIDDocumentManager", "CreateOrUpdate"); fd != nil {
+		var walk func(n ast.Node, cond string)
+		walk = func(n ast.Node, cond string) {
+			ast.Inspect(n, func(m ast.Node) bool {
+				switch x := m.(type) {
+				case *ast.IfStmt:
+					c := exprString(x.Cond)
+					if cond != "" {
+						c = cond + " && " + c
+					}
+					walk(x.Body, c)
+					if x.Else != nil {
+						walk(x.Else, "else("+c+")")
+					}
+					return false
+				case *ast.ReturnStmt:
+					var rs []string
+					for _, e := range x.Results {
+						rs = append(rs, exprString(e))
+					}
+					r := strings.Join(rs, ", ")
+					if cond != "" {
+						r = "if " + cond + ": " + r
+					}
+					couReturns = append(couReturns, r)
+				case *ast.CallExpr:
+					if f := exprString(x.Fun); strings.HasSuffix(f, ".Create") || strings.HasSuffix(f, ".Save") {
+						a := ""
+						if len(x.Args) == 1 {
+							a = exprString(x.Args[0])
+						}
+						ins := f + "(" + a + ")"
+						if cond != "" {
+							ins = "if " + cond + ": " + ins
+						}
+						couInserts = append(couInserts, ins)
+					}
+				}
+				return true
+			})
+		}
+		walk(fd.Body, "")
+	}
+	l.def("createOrUpdateReturns", "List String", leanStrList(couReturns), couReturns)
+	l.def("createOrUpdateInserts", "List String", leanStrList(couInserts), couInserts)
+
 	// ---- did:web: Commit is a no-op that cannot fail, IsCommitted is always true
 	_, web := parseFile("vdr/didweb/manager.go")
 	l.def("webCommitReturnsNil", "Bool", c13Bool(c13ReturnsOnly(c13Method(web, "Manager", "Commit"), "nil")), c13ReturnsOnly(c13Method(web, "Manager", "Commit"), "nil"))
